@@ -113,7 +113,7 @@ def main():
         e, tier, seed = g["best"]
         if tla:
             q = lambda xs: "{" + ", ".join('"' + x + '"' for x in sorted(xs)) + "}"
-            print(f'  [id |-> "{fid}", outcome |-> "{gk[0]}", fmts |-> {q(g["fmts"])}, wfile |-> "{gk[1]}",\n   msg |-> "{gk[2]}", fmods |-> {q(g["fmods"])}],')
+            print(f'  [id |-> "{fid}", outcome |-> "{gk[0]}", fmts |-> {q(g["fmts"])}, wfile |-> "{gk[1]}",\n   msg |-> "{gk[2]}",\n   fns |-> {q(g["fns"])}],')
         elif lines:
             fns = ", ".join(sorted(x.split("::")[-1] for x in g["fns"] if x))[:160]
             what = {"panic": f'panics "{gk[2]}..." ({gk[1]})', "alloc": "requests memory unrelated to the input size (refused by the capping allocator)",
